@@ -21,31 +21,8 @@ import (
 	"go.starlark.net/syntax"
 )
 
-var zzC11Ops = [...]syntax.Token{syntax.EQL, syntax.NEQ, syntax.LT, syntax.LE, syntax.GT, syntax.GE}
 
-// zzC11View is what operator i of zzC11Ops must answer when the left operand is
-// less than (lt) / equal to (eq) the right operand in the reference order.
-func zzC11View(i int, lt, eq bool) bool {
-	switch i {
-	case 0:
-		return eq
-	case 1:
-		return zzNot(eq)
-	case 2:
-		return lt
-	case 3:
-		return zzOr(lt, eq)
-	case 4:
-		return zzNot(zzOr(lt, eq))
-	}
-	return zzNot(lt)
-}
 
-const (
-	zzExpMask  = uint64(0x7ff) << 52
-	zzFracMask = uint64(1)<<52 - 1
-	zzSignBit  = uint64(1) << 63
-)
 
 func zzBitsNaN(b uint64) bool  { return zzAnd(b&zzExpMask == zzExpMask, b&zzFracMask != 0) }
 func zzBitsZero(b uint64) bool { return b&^zzSignBit == 0 }
@@ -146,26 +123,7 @@ func zzIntInt() {
 	zzReach("end")
 }
 
-func zzWShl(a zzW, k uint) zzW {
-	if k == 0 {
-		return a
-	}
-	return zzW{int64(uint64(a.hi)<<k | a.lo>>(64-k)), a.lo << k}
-}
 
-// zzSymFloatKJ builds the double (+-)k*2^j with a symbolic P-bit integer k
-// (2^(P-1) <= k < 2^P, i.e. the full significand when P = 53) and a concrete j
-// (the weight of k's last bit), and returns its bit pattern and sign.
-func zzSymFloatKJ(name string, P, j int) (f float64, k uint64, neg bool) {
-	k = zzU64(name + "_k")
-	zzAssume(zzAnd(k >= 1<<uint(P-1), k < 1<<uint(P)))
-	neg = zzBool(name + "_neg")
-	exp := uint64(j + P - 1 + 1023) // biased exponent of the leading bit
-	frac := (k - 1<<uint(P-1)) << uint(53-P)
-	bits := exp<<52 | frac
-	bits = zzIteU64(neg, bits|zzSignBit, bits)
-	return math.Float64frombits(bits), k, neg
-}
 
 // zzH11_int_float: an int |v| < 2^bits against a float in both operand orders:
 // the six operators are the views of the order of the exact values (CompareDepth
@@ -194,100 +152,6 @@ func zzH11_int_float_conc() { zzIntFloat(1) }
 //verif:thorough
 func zzH11_int_float_small() { zzIntFloat(2) }
 
-func zzIntFloat(part int) {
-	B := zzParam("bits", 66, 70)
-	x, xv := zzSymInt("x", B)
-	var f float64
-	var lt, eq bool // reference: x < f, x == f
-	bigJ := []int{1, 11}
-	smallP := 2
-	if zzParam("thorough_regimes", 0, 1) == 1 {
-		bigJ = []int{0, 1, 10, 11}
-	}
-	smallJ := []int{-1, 0, 1}
-	type conc struct {
-		f     float64
-		num   zzW  // f * 2^scale
-		scale uint // compare x<<scale with num
-		huge  int  // +1: above every int in range, -1: below
-	}
-	concs := []conc{
-		{f: 1.0, num: zzW{0, 1}},
-		{f: -2.5, num: zzWNeg(zzW{0, 5}), scale: 1},
-		{f: 9007199254740994, num: zzW{0, 9007199254740994}},
-		{f: 18446744073709551616.0, num: zzW{1, 0}},
-		{f: 1e300, huge: 1},
-		{f: -1e300, huge: -1},
-		{f: 0, num: zzW{}},
-		{f: math.Copysign(0, -1), num: zzW{}},
-		{f: math.Inf(1), huge: 1},
-		{f: math.Inf(-1), huge: -1},
-	}
-	nBig, nSmall := len(bigJ), smallP*len(smallJ)
-	var r int
-	switch part {
-	case 0:
-		r = zzChoice("regime", nBig)
-	case 1:
-		r = nBig + nSmall + zzChoice("regime", len(concs)+1)
-	default:
-		r = nBig + zzChoice("regime", nSmall)
-	}
-	switch {
-	case r < nBig+nSmall:
-		P, j := 53, 0
-		if r < nBig {
-			j = bigJ[r]
-		} else {
-			P, j = (r-nBig)/len(smallJ)+1, smallJ[(r-nBig)%len(smallJ)]
-		}
-		var k uint64
-		var neg bool
-		f, k, neg = zzSymFloatKJ("f", P, j)
-		kv, kn := zzW{0, k}, zzWNeg(zzW{0, k})
-		kv = zzW{zzIteI64(neg, kn.hi, kv.hi), zzIteU64(neg, kn.lo, kv.lo)}
-		a, b := xv, kv // compare a with b, both scaled by 2^max(0,-j)
-		if j >= 0 {
-			b = zzWShl(kv, uint(j))
-		} else {
-			a = zzWShl(xv, uint(-j))
-		}
-		lt, eq = zzWLess(a, b), zzWEq(a, b)
-	case r < nBig+nSmall+len(concs):
-		c := concs[r-nBig-nSmall]
-		f = c.f
-		switch c.huge {
-		case 1:
-			lt, eq = true, false
-		case -1:
-			lt, eq = false, false
-		default:
-			a := zzWShl(xv, c.scale)
-			lt, eq = zzWLess(a, c.num), zzWEq(a, c.num)
-		}
-	default:
-		f = math.Float64frombits(0x7ff8000000000000 | zzU64("payload")&(zzFracMask>>1))
-		lt, eq = true, false
-	}
-	gt := zzNot(zzOr(lt, eq))
-	for i, op := range zzC11Ops {
-		got, err := CompareDepth(op, x, Float(f), CompareLimit)
-		zzAssert(err == nil, "C11.intfloat.ok")
-		if i == 2 {
-			zzObserve("lt", got)
-		}
-		zzAssert(got == zzC11View(i, lt, eq), "C11.intfloat.view")
-		rev, err := CompareDepth(op, Float(f), x, CompareLimit)
-		zzAssert(err == nil, "C11.floatint.ok")
-		zzAssert(rev == zzC11View(i, gt, eq), "C11.floatint.view")
-	}
-	hx, e1 := x.Hash()
-	hf, e2 := Float(f).Hash()
-	zzAssert(zzAnd(e1 == nil, e2 == nil), "C11.intfloat.hash_ok")
-	zzObserve("hf", hf)
-	zzAssert(zzImplies(eq, hx == hf), "C11.intfloat.equal_values_equal_hash")
-	zzReach("end")
-}
 
 // zzH11_threeway: threeway(op, c) for every int c is the view of sign(c).
 func zzH11_threeway() {
